@@ -80,7 +80,7 @@ IPV4_MAXINT = 4294967295
 # Maximum ipv6 as an integer
 IPV6_MAXINT = 340282366920938463463374607431768211455
 IPV4_MAXSTR_LEN = 31  # String length with periods, slash, and netmask
-IPV6_MAXSTR_LEN = 39 + 4  # String length with colons, slash and masklen
+IPV6_MAXSTR_LEN = 45 + 4  # String length with colons, an embedded dotted-quad IPv4 tail, slash and masklen
 
 IPV4_MAX_PREFIXLEN = 32
 IPV6_MAX_PREFIXLEN = 128
